@@ -523,7 +523,12 @@ def explore_config(run, cfg, env, limits=None, findings=(), width=80, collect_fu
                 exp = {k: normal(evaluate(v, m)) for k, v in sx.obs.items()}
                 st, detail, got, _ = run_concrete(run, cfg, env, values)
                 res["concolic"] += 1
-                if st != "ok":
+                if st.startswith("require:witness:"):
+                    # witness-level obligation (only checkable on concrete values, e.g. text log
+                    # parsing): its failure on this path's witness is a violation candidate
+                    res["violations"].append({"label": st[len("require:"):], "inputs": values,
+                                              "path": res["paths"]})
+                elif st != "ok":
                     res["divergences"].append({"inputs": jsonable(values), "kind": st,
                                                "detail": detail})
                 elif not same(exp, got):
